@@ -56,6 +56,7 @@ class LifecycleRun:
         self.policy = policy
         self.cc = build_context(policy)
         self.fresh = True  # no dummy hash memoised yet
+        self.ckw = {}  # context keywords every verify call carries once a scheme that takes them has been added
         self.marker = policy.get("unix_disabled__marker") or "!"
         self.users = []
         for u in cfg["users"]:
@@ -197,10 +198,12 @@ class LifecycleRun:
         """a disabled record verifies False for every password, incl. the empty one and the record text itself"""
         ctx = self.ctx
         cur = rec["cur"]
-        for pw in (rec["pw"], "", cur, "wrong", cur[1:] if len(cur) > 1 else "x"):
-            r = _call(self.cc.verify, pw, cur)
-            ctx.check(r == ("ok", False), "C18", "disabled-record-verifies", f"verify({pw!r}, {cur!r}) -> {r[:2]}", scheme=self.disabled)
-            r = _call(self.cc.verify_and_update, pw, cur)
+        # (also: text of <= 4096 characters but more UTF-8 bytes, and text that cannot be encoded at all -- a disabled record
+        #  answers False without ever looking at the password)
+        for pw in (rec["pw"], "", cur, "wrong", cur[1:] if len(cur) > 1 else "x", "é" * 2100, "caf\udce9", "\ud800"):
+            r = _call(self.cc.verify, pw, cur, **self.ckw)
+            ctx.check(r == ("ok", False), "C18", "disabled-record-verifies", f"verify({pw!r:.60}, {cur!r}, {self.ckw}) -> {r[:2]}", scheme=self.disabled)
+            r = _call(self.cc.verify_and_update, pw, cur, **self.ckw)
             ctx.check(r[0] == "ok" and r[1][0] is False, "C18", "disabled-record-verifies", f"verify_and_update({pw!r}, {cur!r}) -> {r[:2]}",
                       scheme=self.disabled)
 
@@ -233,7 +236,7 @@ class LifecycleRun:
         st = self.parse(cur)
         if st[0] == "none":
             return self.op_verify_none({}, rec)
-        r = _call(self.cc.verify, pw, cur)
+        r = _call(self.cc.verify, pw, cur, **self.ckw)
         if st[0] == "disabled":
             ctx.check(r == ("ok", False), "C18", "disabled-record-verifies", f"verify({pw!r}, {cur!r}) -> {r[:2]}", scheme=self.disabled)
         elif cur == rec["orig"] and self.attribute(cur) == rec["scheme"]:
@@ -308,6 +311,20 @@ class LifecycleRun:
             nd = self.cc.default_scheme()
             if nd != self.default:
                 self.countable = False  # the counting subclass sits on the old default scheme only
+
+    def op_add_user_scheme(self, op, rec):
+        """reconfiguration on the live object: a scheme that takes a context keyword joins; from now on every login carries it"""
+        if self.ckw or "plaintext" in self.names or "ldap_plaintext" in self.names:
+            return
+        new = self.names + [op["scheme"]]
+        r = _call(self.cc.update, schemes=[getattr(x, "name", x) if not isinstance(x, str) else x for x in self.policy["schemes"]] + [op["scheme"]])
+        if r[0] == "ok":
+            self.names = new
+            self.policy = dict(self.policy, schemes=list(self.policy["schemes"]) + [op["scheme"]])
+            self.ckw = {"user": "someone"}
+            self.fresh = True
+            self.countable = False  # (the update rebuilt the records from names: the counting subclass is gone)
+            self.ctx.fault("policy_update")
 
     def op_restart(self, op, rec):
         from passlib.context import CryptContext
